@@ -10,6 +10,7 @@ mod c05;
 mod c05t;
 mod c11;
 mod c14;
+mod c17;
 mod c18;
 mod cborref;
 mod faults;
@@ -41,6 +42,7 @@ fn check_by_name(name: &str) -> Option<&'static dyn Check> {
     "c05g" => Some(&c05::C05G_CHECK),
     "c14" => Some(&c14::C14_CHECK),
     "c18" => Some(&c18::C18_CHECK),
+    "c17" => Some(&c17::C17_CHECK),
     _ => None,
   }
 }
@@ -95,6 +97,7 @@ fn main() {
         "c05" => run_c05(seed, tier),
         "c14" => run_c14(seed, tier),
         "c18" => run_c18(seed, tier),
+        "c17" => run_c17(seed, tier),
         _ => usage(),
       };
       std::process::exit(code);
@@ -619,6 +622,69 @@ fn run_c18(seed: u64, tier: Tier) -> i32 {
     extra: Default::default(),
   };
   report::finish(&rep, &agg, findings, t0.elapsed().as_secs_f64(), None, &|p, v| c18::predicate(p, v))
+}
+
+// ------------------------------------------------------------------------------------------------
+// C17, determinism clause (native engine)
+
+fn run_c17(seed: u64, tier: Tier) -> i32 {
+  let t0 = Instant::now();
+  let workers = workers_from_env();
+  let total = runs_from_env(match tier {
+    Tier::Quick => 2_500,
+    Tier::Thorough => 400_000,
+  });
+  let plan = Plan {
+    check: "c17",
+    seed,
+    tier,
+    total,
+    batch: 100,
+    workers,
+    deadline: if tier == Tier::Thorough { thorough_deadline(600) } else { None },
+    keep_fps: false,
+    sample_below: 5,
+  };
+  let mut agg = run_plan(&plan);
+  eprintln!("phase search: {:.1}s ({} deaths, {} violations)", t0.elapsed().as_secs_f64(), agg.deaths.len(), agg.violations.len());
+  let n_deaths = agg.deaths.len() as u64;
+  agg.probe("child_deaths_left_to_C05", n_deaths);
+  let groups = triage::group(&agg.violations);
+  let minimised: std::sync::Mutex<Vec<(u64, Violation)>> = std::sync::Mutex::new(Vec::new());
+  let next = std::sync::atomic::AtomicUsize::new(0);
+  std::thread::scope(|sc| {
+    for _ in 0..workers.min(groups.len().max(1)) {
+      sc.spawn(|| loop {
+        let i = next.fetch_add(1, std::sync::atomic::Ordering::SeqCst);
+        if i >= groups.len() || i >= 40 {
+          break;
+        }
+        let (run, v, _) = &groups[i];
+        let m = c17::minimise(v, 60);
+        minimised.lock().unwrap().push((*run, m));
+      });
+    }
+  });
+  let mut minimised = minimised.into_inner().unwrap();
+  minimised.sort_by_key(|x| x.0);
+  let findings: Vec<report::Finding> = minimised.into_iter().map(|(run, violation)| report::Finding { run, violation }).collect();
+  let rep = report::Report {
+    property: "C17",
+    check: "c17",
+    seed,
+    tier,
+    level: "exploration",
+    rule: "DETERMINISM CLAUSE ONLY. one evaluation = one (schema, options, all-types | single-type) job (cddl-derive fixtures, hand-built hazards: several tagged prelude fields, field names colliding after snake-casing, socket/plug alternates, recursive SCCs, many rules; schemas inferred from random documents; repository fixtures) generated by the current cddl-derive/src/codegen.rs in a fresh process, twice on the coordinating thread, after generating the other schemas of the run, and twice on each of two fresh threads (fresh hash keys, different numbers of hash containers created before): all outputs must be byte-identical; type names unique, field / variant names unique per type. non-trivial = generation succeeded; distinct = distinct FNV digests of (job, output)".into(),
+    assumptions: vec![
+      "only the last sentence of C17 is addressed: the compile and round-trip clauses are pure functions of the schema and are not decided by this check".into(),
+      "codegen.rs is compiled into the harness with #[path] from /repo's working tree (the proc-macro entry points only add file reading)".into(),
+      "uniqueness is checked on the rendered text through the renderer's fixed templates".into(),
+    ],
+    real_components: vec!["cddl-derive/src/codegen.rs of the /repo working tree".into(), "cddl parser of the /repo working tree".into(), "std RandomState hash keys, real threads, a real fresh process".into()],
+    stub_components: vec!["none".into()],
+    extra: Default::default(),
+  };
+  report::finish(&rep, &agg, findings, t0.elapsed().as_secs_f64(), None, &|p, v| c17::predicate(p, v))
 }
 
 // ------------------------------------------------------------------------------------------------
